@@ -259,6 +259,7 @@ func checkConn(s *stream, al altered, rnd *rand.Rand) {
 	var released []byte
 	gotErr := false
 	idle := 0
+	afterClose := 0
 	for calls := 0; calls < 20000 && idle < 3; calls++ {
 		n, err := hc.Read(buf)
 		released = append(released, buf[:n]...)
@@ -270,13 +271,21 @@ func checkConn(s *stream, al altered, rnd *rand.Rand) {
 				continue
 			}
 			gotErr = true
-			break
-		}
-		if sc.Closed() {
-			break
+			afterClose++
+			if afterClose > 5 {
+				break
+			}
+			continue
 		}
 		if n > 0 {
 			idle = 0
+		} else if sc.Closed() {
+			// the receiver closed the connection (its way of reporting the failure); keep reading a few more
+			// times: plaintext released AFTER that still counts as released
+			afterClose++
+			if afterClose > 5 {
+				break
+			}
 		}
 	}
 	if sc.Closed() {
